@@ -125,7 +125,8 @@ raw_b('h_drain', ['C10', 'C09', 'C02'], ['RawTable::drain', 'RawDrain::next', 'R
       'drain consumed to any cut then dropped or leaked: valid empty table, same allocation, no tombstones, full capacity (leaked: unallocated)',
       thorough_sse2=())   # 16 buckets under SSE2: no answer within 4500 s (measured); the portable build answers in ~1000 s
 raw_b('h_clone', ['C11'], ['RawTable::clone', 'RawTable::clone_from_impl'],
-      'clone: every bucket reproduced in a new allocation, source unchanged')
+      'clone: every bucket reproduced in a new allocation, source unchanged',
+      thorough_sse2=())   # 16 buckets under SSE2: no answer within 4500 s (measured); the portable build answers; all sizes: Verus unit clone
 raw_b('h_get_many2', ['C15'], ['RawTable::get_many_mut_pointers'],
       'two-key lookup: each request resolves like find; the two pointers coincide exactly when the keys are equal')
 raw_b('h_iter_hash', ['C06'], ['RawIterHash::next', 'RawIterHashInner::next', 'RawIterHashInner::new'],
